@@ -390,7 +390,9 @@ type renewer struct {
 	name               string
 	key                string
 	lockTimeoutSeconds int32
-	stop               chan struct{}
+	stop               chan struct{} // closed by Stop
+	done               chan struct{} // closed when the renew goroutine has exited
+	stopOnce           sync.Once
 }
 
 // newRenewer creates a new renewer instance with the given client, name, key, and lock timeout.
@@ -410,6 +412,7 @@ func newRenewer(client *Client, name string, key string, lockTimeoutSeconds int3
 		key:                key,
 		lockTimeoutSeconds: lockTimeoutSeconds,
 		stop:               make(chan struct{}),
+		done:               make(chan struct{}),
 	}
 	r.Start()
 	return r
@@ -428,18 +431,23 @@ func (r *renewer) Start() {
 		interval = max(r.lockTimeoutSeconds-30, MinRenewSeconds)
 	}
 	go func() {
+		defer close(r.done)
 		for {
 			t := time.NewTimer(time.Duration(interval) * time.Second)
 			select {
 			case <-r.client.ctx.Done():
 				t.Stop()
-				close(r.stop)
 				return
 			case <-r.stop:
 				t.Stop()
-				close(r.stop)
 				return
 			case <-t.C:
+				// Stop() may have been called while the timer was firing
+				select {
+				case <-r.stop:
+					return
+				default:
+				}
 				if _, err := r.client.Renew(r.name, r.key, r.lockTimeoutSeconds); err != nil {
 					panic("error renewing lock " + r.name + " " + err.Error())
 				}
@@ -448,16 +456,15 @@ func (r *renewer) Start() {
 	}()
 }
 
-// Stop stops the renewer by closing the stop channel.
+// Stop stops the renewer by closing the stop channel and waits for the renew
+// goroutine to exit, so that no renew is sent once Stop has returned - also
+// when the goroutine is busy renewing at the time of the call.
 //
 // No parameters.
 // No return values.
 func (r *renewer) Stop() {
-	select {
-	case r.stop <- struct{}{}:
-		<-r.stop
-	default:
-	}
+	r.stopOnce.Do(func() { close(r.stop) })
+	<-r.done
 }
 
 // rpcErrorToError converts an RPC error to a standard error.
